@@ -5,14 +5,14 @@ schedules and faults; every impl trace must be accepted by System.step (coqc vm_
 Coq monitors; Python oracles judge impl's trace and final state directly (harness/syscheck.py)."""
 from harness import core, syscheck
 
-MODES = {'plain': 5, 'appendtimeout': 2, 'kill': 1, 'sbatchfail': 1, 'timeout': 1, 'hooks': 1, 'racing_try': 1}
+MODES = {'plain': 5, 'appendtimeout': 2, 'kill': 1, 'sbatchfail': 1, 'timeout': 1, 'hooks': 1, 'racing_try': 1, 'resubmit': 3}
 
 
 def run(chk):
     ok = core.standard_proof_phase(chk, "C02", gen_needed=())
     chk.notes["system_theorems"] = ['c02_order', 'c02_monitor', 'c02_waiting_jobs_covered', 'c02_never_started_without_outcome']
-    chk.notes["partial"] = "'recorded outcome' = row appended to a result file (A-FS); local mode is exercised by the C06/C04 component drivers, not by the system model"
-    syscheck.system_phase(chk, "C02", MODES, n_quick=130, n_thorough=2500, also=())
+    chk.notes["partial"] = "'recorded outcome' = row appended to a result file (A-FS); local mode is exercised by the C06/C04 component drivers, not by the system model; the second phase of the 'resubmit' mode (after jade resubmit-jobs) is outside the Coq system model and judged by the Python monitors only"
+    syscheck.system_phase(chk, "C02", MODES, n_quick=140, n_thorough=2500, also=(), directed=("node_cancels_two_with_one_behind",))
 
 
 def replay(path):
